@@ -252,3 +252,5 @@ Print Assumptions C16_check_case_sound.
 Print Assumptions C16_check_seq_sound.
 Print Assumptions C16_mi_double_lower.
 Print Assumptions C16_mi_double_symm.
+From CPL Require Import gen.GenFuns_C16 GenProps.GenFunsEquivC16 GenProps.C16Src. (* source tie: gen/GenFuns_C16.v is regenerated from entropy.py on every run *)
+Theorem C16_source_tie : (forall (A : Type) (dec : forall a b : A, {a = b} + {a <> b}) (s : list A), src_shannon_symbols dec s = keys dec s /\ map (src_shannon_count dec s) (src_shannon_symbols dec s) = map Z.of_nat (count_list dec s)) /\ (forall (A B : Type) (eqA : forall a b : A, {a = b} + {a <> b}) (eqB : forall a b : B, {a = b} + {a <> b}) (X : list A) (Y : list B) (x : A) (y : B), length (src_joint_indicator eqA eqB X Y x y) = length (combine X Y) /\ count_occ Bool.bool_dec (src_joint_indicator eqA eqB X Y x y) true = count_occ (pair_dec eqA eqB) (combine X Y) (x, y)) /\ (forall (d : Z) (T : nat), src_ami_guard d (Z.of_nat T) = ami_guard d T) /\ (forall (A : Type) (s : list A) (d : Z), (0 < d)%Z -> (src_ami_left s d, src_ami_right s d) = pair_d (Z.to_nat d) s). Proof. exact C16_source_translation_agrees. Qed. Print Assumptions C16_source_tie.
